@@ -63,6 +63,9 @@ def tokenize(s):
 
 def emit_deps(instream, outstream):
     state = State.target
+    # Whether we've seen any part of a target on the current line; if not, a
+    # newline is just a blank line (clang's `-MP` emits these between rules).
+    in_target = False
 
     for tok, value in tokenize(instream.read()):
         if state == State.target:
@@ -70,13 +73,19 @@ def emit_deps(instream, outstream):
                 state = State.between_targets
             elif tok == Token.colon:
                 state = State.between_deps
+                in_target = False
+            elif tok == Token.newline and not in_target:
+                pass
             elif tok != Token.char:
                 raise UnexpectedTokenError(tok)
+            else:
+                in_target = True
         elif state == State.between_targets:
             if tok == Token.char:
                 state = State.target
             elif tok == Token.colon:
                 state = State.between_deps
+                in_target = False
             elif tok != Token.space:
                 raise UnexpectedTokenError(tok)
         elif state == State.dep:
